@@ -6,6 +6,7 @@ import (
 	"errors"
 	"io"
 
+	"github.com/codenotary/immudb/embedded/appendable"
 	"github.com/codenotary/immudb/embedded/verifrt"
 	"github.com/codenotary/immudb/embedded/watchers"
 )
@@ -116,7 +117,15 @@ func VerifH_SyncWriteOrdering() {
 	k, crashAt, cutMode := verifrt.Param("k"), verifrt.Param("crashAt"), verifrt.Param("cutMode")
 	entrySize := cLogEntrySizeV2
 	clock := &verifCrashClock{crashAt: crashAt}
+	nv := verifrt.Param("nvlogs") // value logs (values are spread round-robin)
 	vLog := &verifCrashLog{name: "vlog", clock: clock}
+	vLogs := map[byte]*refVLog{0: {vLog: vLog}}
+	allV := []*verifCrashLog{vLog}
+	for v := 1; v < nv; v++ {
+		l := &verifCrashLog{name: "vlog" + string(rune('1'+v)), clock: clock}
+		vLogs[byte(v)] = &refVLog{vLog: l}
+		allV = append(allV, l)
+	}
 	txLog := &verifCrashLog{name: "txlog", clock: clock}
 	cLog := &verifCrashLog{name: "clog", clock: clock}
 
@@ -146,8 +155,9 @@ func VerifH_SyncWriteOrdering() {
 		lastAlh = verifrt.Digest("alh")
 		verifrt.Assume(buf.put(c+uint64(i)+1, lastAlh, off, sz) == nil)
 		off += int64(sz)
-		vLog.b = append(vLog.b, verifrt.Byte("val"))
-		vLog.off = int64(len(vLog.b))
+		tv := allV[i%nv]
+		tv.b = append(tv.b, verifrt.Byte("val"))
+		tv.off = int64(len(tv.b))
 	}
 	var done []string
 	verifrt.Stub("(*embedded/watchers.WatchersHub).DoneUpto", func(w *watchers.WatchersHub, t uint64) error {
@@ -156,9 +166,17 @@ func VerifH_SyncWriteOrdering() {
 		return nil
 	})
 	st := &ImmuStore{
-		maxIOConcurrency: 1, vLogs: map[byte]*refVLog{0: {vLog: vLog}},
+		maxIOConcurrency: nv, vLogs: vLogs,
 		txLog: txLog, cLog: cLog, cLogEntrySize: entrySize, cLogBuf: buf,
 		committedTxID: c, inmemPrecommittedTxID: c + uint64(k), inmemPrecommittedAlh: lastAlh,
+	}
+	if nv > 1 {
+		// the lock/wait machinery that hands value logs out to concurrent committers is not
+		// part of this obligation: a value log is fetched by id
+		verifrt.Stub("(*embedded/store.ImmuStore).fetchVLog", func(s *ImmuStore, vLogID byte) (appendable.Appendable, error) {
+			return s.vLogs[vLogID-1].vLog, nil
+		})
+		verifrt.Stub("(*embedded/store.ImmuStore).releaseVLog", func(s *ImmuStore, vLogID byte) error { return nil })
 	}
 	err := st.sync()
 	crashed := clock.crashAt > 0 && clock.ops >= clock.crashAt
@@ -169,7 +187,10 @@ func VerifH_SyncWriteOrdering() {
 		verifrt.Assert(err == nil, "sync succeeds without faults")
 		verifrt.Reach("completed")
 		verifrt.Assert(st.committedTxID == c+uint64(k), "everything precommitted is committed")
-		verifrt.Assert(int64(len(txLog.disk)) == int64(len(txLog.b)) && len(vLog.disk) == len(vLog.b) && len(cLog.disk) == len(cLog.b), "all three logs are durable when sync returns")
+		verifrt.Assert(int64(len(txLog.disk)) == int64(len(txLog.b)) && len(cLog.disk) == len(cLog.b), "tx log and commit log are durable when sync returns")
+		for _, l := range allV {
+			verifrt.Assert(len(l.disk) == len(l.b), "every value log is durable when sync returns")
+		}
 		verifrt.Assert(len(cLog.b) == int(c+uint64(k))*entrySize, "one commit entry per committed transaction")
 		if k > 0 {
 			iTx, iV, iC, iCS := verifIndexOf(clock.trace, "txlog.sync"), verifIndexOf(clock.trace, "vlog.sync"), verifIndexOf(clock.trace, "clog.append"), verifIndexOf(clock.trace, "clog.sync")
@@ -208,6 +229,8 @@ func VerifH_SyncWriteOrdering() {
 		o := int64(uint64(e[0])<<56 | uint64(e[1])<<48 | uint64(e[2])<<40 | uint64(e[3])<<32 | uint64(e[4])<<24 | uint64(e[5])<<16 | uint64(e[6])<<8 | uint64(e[7]))
 		sz := int64(uint32(e[8])<<24 | uint32(e[9])<<16 | uint32(e[10])<<8 | uint32(e[11]))
 		verifrt.Assert(o+sz <= int64(len(txLog.disk)), "a complete commit-log entry points to durable tx-log bytes")
-		verifrt.Assert(len(vLog.disk) == len(vLog.b), "values are durable before any new commit-log entry exists")
+		for _, l := range allV {
+			verifrt.Assert(len(l.disk) == len(l.b), "values are durable before any new commit-log entry exists")
+		}
 	}
 }
